@@ -53,6 +53,9 @@ type RootInfo struct {
 
 const FuelLimit = 3_000_000
 
+// FuelOverride, if > 0, replaces FuelLimit (used for mutants, which may well diverge).
+var FuelOverride int64
+
 var ansi = regexp.MustCompile("\x1b\\[[0-9;]*m")
 
 func CleanPanic(s string) string {
@@ -65,7 +68,11 @@ func CleanPanic(s string) string {
 func RunOnce(text string, cfg Config, prefix []int, opts vsched.Options, skipTC bool) *Exec {
 	ex := &Exec{RootChans: map[uintptr]string{}}
 	opts.FreezeAfterQuiesce = true
-	vfuel.Reset(FuelLimit)
+	if FuelOverride > 0 {
+		vfuel.Reset(FuelOverride)
+	} else {
+		vfuel.Reset(FuelLimit)
+	}
 	ex.Res = vsched.Run(prefix, opts, func() {
 		vsched.Branching(false)
 		procs, assumed, env, err := parser.ParseString(text)
